@@ -59,8 +59,16 @@ def find(fn, m, live_only=True):
 
 
 def strip_cond(fn, nid):
-    """look through !, bool casts, __builtin_expect, comparisons with true/false/0; returns (atom id, polarity)"""
+    a, p, r = strip_cond2(fn, nid)
+    return a, p
+
+
+def strip_cond2(fn, nid):
+    """look through !, bool casts, __builtin_expect, comparisons with true/false/0; returns (atom id, polarity, restrict) where restrict says
+    which outcome of the ORIGINAL condition determines the atom: for `a || b` the block that carries the whole condition may be entered from the
+    short-circuit edge, so only its false edge determines b (b false); for `a && b` only its true edge does (b true)."""
     pol = True
+    restrict = None
     seen = 0
     while nid is not None and nid >= 0 and seen < 20:
         seen += 1
@@ -80,6 +88,10 @@ def strip_cond(fn, nid):
         if k == "bin" and n["op"] in ("&&", "||") and len(c) == 2:
             # the block that carries this terminator condition evaluates the right operand; the left one was
             # decided (and branched on) in an earlier block
+            r = ("false" if n["op"] == "||" else "true")
+            if not pol:
+                r = "true" if r == "false" else "false"
+            restrict = r if restrict in (None, r) else "none"
             nid = c[1]
             continue
         if k == "bin" and n["op"] in ("==", "!=") and len(c) == 2:
@@ -101,7 +113,7 @@ def strip_cond(fn, nid):
                 nid = d
                 continue
         break
-    return nid, pol
+    return nid, pol, restrict
 
 
 _defs_cache = {}
@@ -152,11 +164,18 @@ def cond_edges(fn, atom_pred):
     for b, blk in fn.blocks.items():
         if "cond" not in blk or len(blk["succ"]) != 2:
             continue
-        atom, pol = strip_cond(fn, blk["cond"])
+        atom, pol, restrict = strip_cond2(fn, blk["cond"])
         if atom is None or atom < 0:
             continue
         if atom_pred(fn, atom):
             t, f = blk["succ"][0], blk["succ"][1]
+            # restrict refers to the outcome of the original condition
+            if restrict == "true":
+                f = None
+            elif restrict == "false":
+                t = None
+            elif restrict == "none":
+                t = f = None
             if not pol:
                 t, f = f, t
             out.append((b, atom, t, f))
@@ -164,33 +183,26 @@ def cond_edges(fn, atom_pred):
 
 
 def only_via(fn, action_nid, atom_pred, polarity=True, relicense=True):
-    """K4: is `action` control dependent on atom being `polarity`?  i.e. every path from entry to the action, and every
-    path from the action back to itself, takes the polarity-edge of a condition on a matching atom.
+    """K4: is `action` control dependent on atom being `polarity`?  i.e. every path from entry to the action, and (relicense) every
+    path from the action back to itself, takes an edge that is only taken when a matching atom has that truth value.
     Returns (ok, offending_path_blocks, n_atoms)"""
-    edges = cond_edges(fn, atom_pred)
-    removed = set()
-    for b, atom, t, f in edges:
-        lic = t if polarity else f
-        if lic is not None:
-            removed.add((b, lic))
+    removed, n_atoms = licensed_edges(fn, lambda f, a: polarity if atom_pred(f, a) else None)
     pos = fn.pos().get(action_nid)
     if pos is None:
-        return True, [], len(edges)
+        return True, [], n_atoms
     target = pos[0]
-    # path from entry avoiding licensing edges
     path = _path(fn, fn.entry, target, removed)
     if path is not None:
-        return False, path, len(edges)
-    # path from the action back to itself avoiding licensing edges (second execution without a new licence)
+        return False, path, n_atoms
     if not relicense:
-        return True, [], len(edges)
+        return True, [], n_atoms
     for s in fn.blocks[target]["succ"]:
         if s is None or (target, s) in removed:
             continue
         p = _path(fn, s, target, removed)
         if p is not None:
-            return False, [target] + p, len(edges)
-    return True, [], len(edges)
+            return False, [target] + p, n_atoms
+    return True, [], n_atoms
 
 
 def _path(fn, src, dst, removed_edges):
@@ -423,26 +435,9 @@ def must_pass(fn, target_nid, via_events):
 
 
 def between_only_via(fn, a, b, atom_pol):
-    """every path from event a to event b (a == b: every cycle through a) takes, for some condition whose stripped atom gets a polarity
-    from atom_pol(fn, atom) (True / False; None = not a licensing atom), the edge of that polarity.  Returns (ok, path, n_atoms)."""
-    removed = set()
-    n = 0
-    for blk_id, blk in fn.blocks.items():
-        if "cond" not in blk or len(blk["succ"]) != 2:
-            continue
-        atom, pol = strip_cond(fn, blk["cond"])
-        if atom is None or atom < 0:
-            continue
-        want = atom_pol(fn, atom)
-        if want is None:
-            continue
-        n += 1
-        t, f = blk["succ"][0], blk["succ"][1]
-        if not pol:
-            t, f = f, t
-        lic = t if want else f
-        if lic is not None:
-            removed.add((blk_id, lic))
+    """every path from event a to event b (a == b: every cycle through a) takes an edge that is only taken when some atom has the truth value
+    atom_pol(fn, atom) asks for (True / False; None = not a licensing atom).  Returns (ok, path, n_atoms)."""
+    removed, n = licensed_edges(fn, atom_pol)
     pos = fn.pos()
     pa, pb = pos.get(a), pos.get(b)
     if pa is None or pb is None:
@@ -456,3 +451,95 @@ def between_only_via(fn, a, b, atom_pol):
         if p is not None:
             return False, [pa[0]] + p, n
     return True, [], n
+
+
+def _flatten_logical(fn, nid):
+    """(op, [(atom, polarity)]) for a condition; op in (None, '&&', '||'); nested mixed operators give op 'mixed'"""
+    pol = True
+    cur = nid
+    # peel negations / casts around a logical operator
+    for _ in range(10):
+        n = fn.nodes[cur]
+        c = fn.kids(cur)
+        if n["k"] == "un" and n["op"] == "!" and c:
+            pol = not pol
+            cur = c[0]
+            continue
+        if n["k"] == "cast" and c:
+            cur = c[0]
+            continue
+        if n["k"] == "call" and n.get("callee", "").endswith("__builtin_expect") and c:
+            cur = c[0]
+            continue
+        break
+    n = fn.nodes[cur]
+    if n["k"] == "bin" and n["op"] in ("&&", "||"):
+        op = n["op"]
+        if not pol:
+            # De Morgan
+            op = "||" if op == "&&" else "&&"
+        leaves = []
+
+        def rec(x, p, want_op):
+            xn = fn.nodes[x]
+            xc = fn.kids(x)
+            if xn["k"] == "un" and xn["op"] == "!" and xc:
+                return rec(xc[0], not p, want_op)
+            if xn["k"] == "bin" and xn["op"] in ("&&", "||"):
+                eff = xn["op"] if p else ("||" if xn["op"] == "&&" else "&&")
+                if eff != want_op:
+                    return False
+                return rec(xc[0], p, want_op) and rec(xc[1], p, want_op)
+            a, ap = strip_cond(fn, x)
+            leaves.append((a, ap if p else not ap))
+            return True
+        c = fn.kids(cur)
+        ok = rec(c[0], pol, op) and rec(c[1], pol, op)
+        if not ok:
+            return "mixed", []
+        return op, leaves
+    a, ap = strip_cond(fn, nid)
+    return None, [(a, ap)]
+
+
+def licensed_edges(fn, want_fn):
+    """set of CFG edges (block, successor) that are guaranteed to be taken only when some atom has the truth value want_fn(fn, atom) asks for.
+    Short-circuit conditions are handled exactly: the block carrying `a || b` is left through its true edge when a OR b holds, so that edge is
+    licensed only if every disjunct is a licensing atom (dually for &&)."""
+    out = set()
+    n_atoms = 0
+    for b, blk in fn.blocks.items():
+        if "cond" not in blk or len(blk["succ"]) != 2:
+            continue
+        op, leaves = _flatten_logical(fn, blk["cond"])
+        if op == "mixed" or not leaves:
+            continue
+        wants = []
+        for atom, pol in leaves:
+            if atom is None or atom < 0:
+                wants.append(None)
+                continue
+            w = want_fn(fn, atom)
+            wants.append(w)
+        if any(w is not None for w in wants):
+            n_atoms += 1
+        t, f = blk["succ"][0], blk["succ"][1]
+        # leaf expression i is true  <=>  atom_i == pol_i
+        lic_when_true = [w is not None and w == pol for (a, pol), w in zip(leaves, wants)]      # leaf-expr true implies wanted value
+        lic_when_false = [w is not None and w == (not pol) for (a, pol), w in zip(leaves, wants)]  # leaf-expr false implies wanted value
+        if op is None:
+            if lic_when_true[0] and t is not None:
+                out.add((b, t))
+            if lic_when_false[0] and f is not None:
+                out.add((b, f))
+        elif op == "||":
+            if all(lic_when_true) and t is not None:
+                out.add((b, t))
+            if any(lic_when_false) and f is not None:
+                out.add((b, f))
+        elif op == "&&":
+            if any(lic_when_true) and t is not None:
+                out.add((b, t))
+            if all(lic_when_false) and f is not None:
+                out.add((b, f))
+    return out, n_atoms
